@@ -65,23 +65,84 @@ def rule_a(ctx):
     ctx.floor('a', 'pending_sites', n, 35)
 
 
-def _guard_locals(b):
-    return [i for i, (ty, nm) in enumerate(b.locals) if 'MutexGuard' in ty and not ty.startswith('&')]
+UNWRAPS = ('Result::unwrap', 'Result::expect', 'Result::unwrap_or_else', 'Result::unwrap_unchecked', 'Option::unwrap', 'Option::expect', 'PoisonError::into_inner')
+LOCKS = ('Mutex::lock', 'Mutex::try_lock')
 
 
-def _drops_of(b, local):
-    res = set()
-    for i, blk in enumerate(b.blocks):
+def _is_guard_ty(ty):
+    return 'MutexGuard' in ty and not ty.startswith('&')
+
+
+def _moves_local(op, local):
+    return op[0] == 'm' and op[1][0] == local and not op[1][1]
+
+
+def _guard_flow(b, lk):
+    """HELD-AT (P13) as a forward flow of the value produced by the lock call `lk`: the guard is followed through
+    whole-local moves (`let conn = { let g = lock(); g }`, the temporary of an explicit `drop(g)`) and through
+    unwrap()/expect() of a std LockResult; it is released by a Drop terminator on its holder or by being moved into any
+    other call (mem::drop, ...) or into a place that is not a plain local.  Returns (held, released): blocks at whose
+    terminator the guard is held on some path / already released on some path from the lock (paths stop at the lock itself:
+    a new guard is produced there).  None when the guard is not the value of a plain local."""
+    if lk.dst[1] or lk.t is None or 'MutexGuard' not in b.locals[lk.dst[0]][0]:
+        return None
+    held, released, seen = set(), set(), set()
+    stack = [(lk.t, lk.dst[0])]
+    while stack:
+        bb, h = stack.pop()
+        if (bb, h) in seen or bb == lk.bb:
+            continue
+        seen.add((bb, h))
+        blk = b.blocks[bb]
         if blk['c']:
             continue
+        for st in blk['s']:
+            if h is None:
+                break
+            if st[0] != '=':
+                continue
+            rv = st[2]
+            if rv[0] == 'use' and _moves_local(rv[1], h):
+                h = st[1][0] if not st[1][1] else None
+            elif rv[0] == 'agg' and any(_moves_local(o, h) for o in rv[2]):
+                h = None
+        (held if h is not None else released).add(bb)
         t = blk['t']
-        if t[0] == 'drop' and t[1][0] == local and not t[1][1]:
-            res.add(i)
-        if t[0] == 'call':
-            c = t[1]
-            if (c['f'] or '').endswith('mem::drop') and c['args'] and c['args'][0][0] == 'm' and c['args'][0][1][0] == local:
-                res.add(i)
-    return res
+        nh = h
+        if h is not None:
+            if t[0] == 'drop' and t[1][0] == h and not t[1][1]:
+                nh = None
+            elif t[0] == 'call' and any(_moves_local(a, h) for a in t[1]['args']):
+                c = t[1]
+                f = c['f'] or c['df'] or ''
+                if any(path_matches(f, u) for u in UNWRAPS) and not c['dst'][1] and _is_guard_ty(b.locals[c['dst'][0]][0]):
+                    nh = c['dst'][0]
+                else:
+                    nh = None
+        for s2 in b.succ[bb]:
+            stack.append((s2, nh))
+    return held, released
+
+
+def _held_at(b, locks, site_bb):
+    """some lock dominates the site and, on every path from that lock to the site, its guard is still held"""
+    for lk in locks:
+        fl = _guard_flow(b, lk)
+        if fl is None:
+            continue
+        held, released = fl
+        if site_bb in held and site_bb not in released and b.dominates(lk.bb, site_bb):
+            return True
+    return False
+
+
+def _state_slot(b, pl):
+    """the place is a slot of the lowered coroutine's own state: `((*_n) as variant k).field` of the coroutine type"""
+    pr = pl[1]
+    for i, e in enumerate(pr):
+        if isinstance(e, list) and e[0] == 'f' and i > 0 and isinstance(pr[i - 1], list) and pr[i - 1][0] == 'v' and str(e[2]).startswith('{closure}'):
+            return True
+    return False
 
 
 def rule_b(ctx):
@@ -92,50 +153,138 @@ def rule_b(ctx):
         bodies = [b for b in F.code_bodies('quinn') if b.kind == 'coroutine' and path_matches(F.root_of(b).id, fn)]
         ok_any = False
         for b in bodies:
-            locks = b.calls_to('Mutex::lock')
+            locks = b.calls_to(*LOCKS)
             nots = b.calls_to('Notify::notified')
             for nt in nots:
                 n += 1
-                held = False
-                for lk in locks:
-                    g = lk.dst[0]
-                    if lk.dst[1]:
-                        continue
-                    drops = _drops_of(b, g)
-                    # notified() reachable from the lock without passing a drop of the guard, and not reachable after a drop (without re-locking)
-                    reach_nodrop = nt.bb in b.reachable_from(lk.t, avoid=drops) if lk.t is not None else False
-                    after_drop = any(nt.bb in b.reachable_from(b.succ[d_][0], avoid=[lk.bb]) for d_ in drops if b.succ[d_]) if drops else False
-                    if reach_nodrop and not after_drop and 'MutexGuard' in b.locals[g][0]:
-                        held = True
+                held = _held_at(b, locks, nt.bb)
                 ok_any = ok_any or held
-                ctx.check(held, 'b', 'notified_created_under_lock', F.root_of(b), nt.where(), 'Notify::notified() between lock() and the guard drop',
+                ctx.check(held, 'b', 'notified_created_under_lock', F.root_of(b), nt.where(), 'Notify::notified() between lock() and the release of its guard on every path',
                           'the Notified future is created after the state lock was released: a notification between the check and the registration is lost', site_class=fn)
         ctx.check(bool(bodies) and ok_any, 'b', 'waiter_future_present', fn, '', 'found', '%s: no Notified creation under the lock found' % fn)
     # 2. poll fns: Notified::poll while the guard taken before the condition test is still held
     for fn in ('connection::poll_open', 'connection::poll_accept', '<ReadDatagram as Future>::poll', '<SendDatagram as Future>::poll', '<Accept as Future>::poll'):
         b = ctx.qfn(fn)
-        locks = b.calls_to('Mutex::lock')
-        polls = [c for c in b.calls() if c.is_('<Notified as Future>::poll', 'Notified::poll') or (short(c.f).endswith('::poll') and 'Notified' in c.f)]
+        locks = b.calls_to(*LOCKS)
+        polls = [c for c in b.calls() if c.bb in b.live_blocks() and (c.is_('<Notified as Future>::poll', 'Notified::poll') or (short(c.f).endswith('::poll') and 'Notified' in c.f))]
         ctx.check(bool(locks) and bool(polls), 'b', 'poll_fn_shape', b, b.where(), '%d lock, %d Notified::poll' % (len(locks), len(polls)), '%s no longer locks the state and polls a Notified' % fn)
         for pc in polls:
             n += 1
-            held = False
-            for lk in locks:
-                g = lk.dst[0]
-                drops = _drops_of(b, g)
-                if lk.t is not None and pc.bb in b.reachable_from(lk.t, avoid=drops) and not any(pc.bb in b.reachable_from(b.succ[d_][0], avoid=[lk.bb]) for d_ in drops if b.succ[d_]):
-                    held = True
-            ctx.check(held, 'b', 'notified_polled_under_lock', b, pc.where(), 'Notified::poll reached with the state guard still held', 'the Notified is polled after the state lock was dropped: readiness can race with registration', site_class=fn)
-    ctx.floor('b', 'lock_region_sites', n, 8)
-    # 3. no guard saved across a suspension: MutexGuard never stored into a coroutine state field
+            ctx.check(_held_at(b, locks, pc.bb), 'b', 'notified_polled_under_lock', b, pc.where(), 'Notified::poll reached with the state guard still held on every path', 'the Notified is polled after the state lock was dropped: readiness can race with registration', site_class=fn)
+    ctx.floor('b', 'lock_region_sites', n, 9)
+    # 3. no guard saved across a suspension: in the lowered coroutine nothing of a MutexGuard type is written into a slot of
+    #    the coroutine state (only values live across a suspension point are kept there): neither by a move of a guard local
+    #    nor as the direct destination of lock() / unwrap() of a LockResult
     bad = []
+    slots = 0
     for b in F.code_bodies('quinn'):
         if b.kind != 'coroutine':
             continue
         for i, j, pl, rv, line in b.assigns():
-            if pl[0] == 1 and pl[1] and rv[0] == 'use' and rv[1][0] == 'm' and 'MutexGuard' in b.locals[rv[1][1][0]][0] and not rv[1][1][1]:
+            if not _state_slot(b, pl):
+                continue
+            slots += 1
+            ops = [rv[1]] if rv[0] == 'use' else (list(rv[2]) if rv[0] == 'agg' else [])
+            if any(o[0] in ('m', 'c') and not o[1][1] and _is_guard_ty(b.locals[o[1][0]][0]) for o in ops):
                 bad.append('%s:%d' % (b.file, line))
-    ctx.check(not bad, 'b', 'no_guard_across_await', 'quinn coroutines', '', 'no MutexGuard is moved into coroutine state', 'a MutexGuard is kept across an await point: %s' % bad)
+        for c in b.calls():
+            if not _state_slot(b, c.dst):
+                continue
+            slots += 1
+            if c.is_(*LOCKS) or (c.is_(*UNWRAPS) and any(a[0] in ('m', 'c') and 'MutexGuard' in b.locals[a[1][0]][0] for a in c.args)) or 'MutexGuard' in (c.f or ''):
+                bad.append('%s:%d' % (b.file, c.line))
+    ctx.check(not bad, 'b', 'no_guard_across_await', 'quinn coroutines', '', 'no MutexGuard is kept in coroutine state (%d state-slot stores examined)' % slots, 'a MutexGuard is kept across an await point: %s' % sorted(set(bad)))
+    ctx.floor('b', 'coroutine_state_stores', slots, 30)
+
+
+# waiting operation -> the Notify of Shared that forward_app_events / the endpoint driver notifies when its condition may have
+# become true (rule d pins event -> Notify; this table pins waiter -> Notify).  element: None (scalar Notify), a Dir variant name
+# (constructor of the per-direction future) or 'param' (the direction parameter of the shared poll fn).
+WAITERS = [
+    ('Connection::open_uni', 'stream_budget_available', 'Uni'),
+    ('Connection::open_bi', 'stream_budget_available', 'Bi'),
+    ('connection::poll_open', 'stream_budget_available', 'param'),
+    ('Connection::accept_uni', 'stream_incoming', 'Uni'),
+    ('Connection::accept_bi', 'stream_incoming', 'Bi'),
+    ('connection::poll_accept', 'stream_incoming', 'param'),
+    ('Connection::read_datagram', 'datagram_received', None),
+    ('<ReadDatagram as Future>::poll', 'datagram_received', None),
+    ('Connection::send_datagram_wait', 'datagrams_unblocked', None),
+    ('<SendDatagram as Future>::poll', 'datagrams_unblocked', None),
+    ('Connection::closed', 'closed', None),
+    ('Connection::handshake_confirmed', 'handshake_confirmed', None),
+    ('Connection::authenticated', 'connected', None),
+    ('Endpoint::accept', 'incoming', None),
+    ('<Accept as Future>::poll', 'incoming', None),
+    ('Endpoint::wait_idle', 'idle', None),
+]
+# the poll fn of a per-direction future passes its own direction to the shared poll fn (the condition tested there is
+# `streams().open(dir)` / `streams().accept(dir)`, the Notified it re-arms is element [dir])
+DIR_FUTURES = [
+    ('<OpenUni as Future>::poll', 'connection::poll_open', 'Uni'),
+    ('<OpenBi as Future>::poll', 'connection::poll_open', 'Bi'),
+    ('<AcceptUni as Future>::poll', 'connection::poll_accept', 'Uni'),
+    ('<AcceptBi as Future>::poll', 'connection::poll_accept', 'Bi'),
+]
+
+
+def _outer_fields(a):
+    """names of the outermost field of a receiver descriptor (index / phi peeled); None for an alternative that is not a field"""
+    if a[0] == 'phi':
+        out = set()
+        for x in a[1]:
+            out |= _outer_fields(x)
+        return out
+    while a[0] == 'index':
+        a = a[1]
+    return {a[2] if a[0] == 'field' else None}
+
+
+def rule_b_waiter_notify(ctx):
+    """every Notified a waiting operation creates (constructor of the future, and the re-arm after a spurious wake-up in its poll
+    fn) is created from the Notify that is notified when the operation's own condition may have become true"""
+    F = ctx.facts
+    dirs = [a for p_, a in F.adts.items() if a.get('crate') == 'quinn_proto' and p_.endswith('quinn_proto::Dir')]
+    ctx.check(len(dirs) == 1, 'b', 'dir_adt', 'Dir', '', 'found', 'quinn_proto::Dir not found')
+    dval = {v['name']: int(v.get('discr', i)) for i, v in enumerate(dirs[0]['variants'])} if len(dirs) == 1 else {}
+    n = 0
+    for fn, fld, elem in WAITERS:
+        anchor = ctx.qfn(fn)
+        bodies = [b for b in F.code_bodies('quinn') if F.root_of(b).id == F.root_of(anchor).id]
+        sites = [(b, c) for b in bodies for c in b.calls_to('Notify::notified') if c.bb in b.live_blocks()]
+        ctx.check(bool(sites), 'b', 'waiter_notify_site_present', anchor, anchor.where(), '%d Notified creation(s)' % len(sites), '%s no longer creates a Notified' % fn, site_class=fn)
+        for b, c in sites:
+            n += 1
+            got = _outer_fields(arg_desc(F, c, 0))
+            why = ''
+            if got != {fld}:
+                why = 'listens on %s' % sorted(str(g) for g in got)
+            elif elem is not None:
+                idxs = _index_descs(F, b, c.args[0][1][0], c.bb, term_idx(b, c.bb)) if c.args[0][0] in ('c', 'm') else []
+                if not idxs:
+                    why = 'element of %s not identified' % fld
+                elif elem == 'param':
+                    ps = set()
+                    for i_ in idxs:
+                        here = {x[1] for x in walk(i_) if x[0] == 'param' and 'Dir' in b.locals[x[1]][0]}
+                        if not here:
+                            why = 'element index is not derived from the direction parameter'
+                        ps |= here
+                    # the condition is tested for the same direction
+                    for ac in b.calls_to('Streams::open', 'Streams::accept'):
+                        ad = arg_desc(F, ac, 1)
+                        if not (ad[0] == 'param' and {ad[1]} == ps):
+                            why = why or 'the condition is tested for another direction than the Notify element'
+                elif any(_const_int(i_) != dval.get(elem) for i_ in idxs):
+                    why = 'element %s is not Dir::%s' % ([_const_int(i_) for i_ in idxs], elem)
+            ctx.check(not why, 'b', 'waiter_listens_on_its_notify', F.root_of(b), c.where(), 'Notified created from shared.%s%s' % (fld, '' if elem is None else '[%s]' % elem),
+                      '%s waits on the wrong Notify (%s; its condition is signalled on shared.%s%s): the wake-up for its condition is lost' % (fn, why, fld, '' if elem is None else '[%s]' % elem), site_class=fn)
+    ctx.floor('b', 'waiter_notify_sites', n, 16)
+    for fn, callee, elem in DIR_FUTURES:
+        b = ctx.qfn(fn)
+        cs = [c for c in b.calls_to(callee) if c.bb in b.live_blocks()]
+        ok = bool(cs) and all(len(c.args) > 3 and all(x[0] == 'agg' and x[2].endswith('Dir::' + elem) for x in flat(arg_desc(F, c, 3))) for c in cs)
+        ctx.check(ok, 'b', 'future_polls_its_direction', b, b.where(), '%s(.., Dir::%s)' % (callee, elem), '%s no longer tests the condition of its own direction (Dir::%s): it is registered on one direction and waits for the other' % (fn, elem))
 
 
 WAKE_TABLE = [
@@ -220,12 +369,83 @@ def _arm_calls(F, b, br, value, stop_blocks):
     return out
 
 
+def _const_int(d):
+    """integer value of a constant descriptor (`Dir::Uni as usize` arrives as `1 + 0`), else None"""
+    if d[0] == 'const' and d[1] == 'int':
+        try:
+            return int(str(d[2]).split('_')[0])
+        except ValueError:
+            return None
+    if d[0] == 'bin' and d[1] in ('Add', 'Sub', 'Mul'):
+        x, y = _const_int(d[2]), _const_int(d[3])
+        if x is None or y is None:
+            return None
+        return x + y if d[1] == 'Add' else (x - y if d[1] == 'Sub' else x * y)
+    return None
+
+
+def _index_descs(F, b, local, bb, idx, depth=0):
+    """descriptors of the array indices applied on the borrow chain that produces reference local `local`"""
+    d = describer(F, b)
+    out = []
+    if depth > 6:
+        return out
+    for df in d.reaching_defs(local, bb, idx):
+        pl = None
+        if df[0] == 'stmt':
+            rv = df[3]
+            if rv[0] in ('ref', 'ptr'):
+                pl = rv[2]
+            elif rv[0] in ('use', 'cast') and (rv[1] if rv[0] == 'use' else rv[2])[0] in ('c', 'm'):
+                pl = (rv[1] if rv[0] == 'use' else rv[2])[1]
+            at = (df[1], df[2])
+        elif df[0] == 'call' and df[2].args and df[2].args[0][0] in ('c', 'm') and D._is_transparent(short(df[2].f), df[2].f):
+            pl = df[2].args[0][1]
+            at = (df[2].bb, term_idx(b, df[2].bb))
+        if pl is None:
+            continue
+        for e in pl[1]:
+            if isinstance(e, list) and e[0] == 'i':
+                out.append(d.place([e[1], []], at[0], at[1]))
+            elif isinstance(e, list) and e[0] == 'ci':
+                out.append(('const', 'int', e[1], ''))
+        out += _index_descs(F, b, pl[0], at[0], at[1], depth + 1)
+    return out
+
+
+def _notify_cover(F, c, fld):
+    """what a `notify_waiters()` call covers of Notify field `fld` of Shared: None (another field), 'all' (the scalar
+    field, or every element: no index on the borrow chain), a set of constant indices, or ('var', index descriptors)"""
+    if not (c.is_('Notify::notify_waiters') and c.args and D.has_field(arg_desc(F, c, 0), fld)):
+        return None
+    if c.args[0][0] not in ('c', 'm'):
+        return 'all'
+    idxs = _index_descs(F, c.body, c.args[0][1][0], c.bb, term_idx(c.body, c.bb))
+    if not idxs:
+        return 'all'
+    vals = [_const_int(x) for x in idxs]
+    if all(v is not None for v in vals):
+        return set(vals)
+    return ('var', idxs)
+
+
+def _array_len(ty):
+    import re
+    m = re.match(r'^\[.*;\s*(\d+)(?:_usize)?\]$', ty.strip())
+    return int(m.group(1)) if m else None
+
+
+def _is_variant_field(x, variant, field):
+    return x[0] == 'field' and x[2] == field and x[1][0] == 'variant' and x[1][2] == variant
+
+
 def rule_d(ctx):
     F = ctx.facts
     fa = ctx.qfn('State::forward_app_events')
-    se = F.adt('StreamEvent') if [1 for p in F.adts if p.endswith('StreamEvent')] else None
     poll = fa.calls_to('quinn_proto::Connection::poll')
     stop = [c.bb for c in poll]
+    sh = F.adt('connection::Shared')
+    shf = {f[0]: f[1] for f in sh['variants'][0]['fields']}
     # find the dispatch on the StreamEvent discriminant
     want = {
         'Writable': [('wake_stream', 'blocked_writers')],
@@ -233,58 +453,237 @@ def rule_d(ctx):
         'Finished': [('wake_stream_notify', 'stopped')],
         'Stopped': [('wake_stream_notify', 'stopped'), ('wake_stream', 'blocked_writers')],
     }
-    names = {}
-    for p, a in F.adts.items():
-        pass
-    # StreamEvent variant order (from proto facts)
-    sev = [a for p, a in F.adts.items() if p.endswith('streams::StreamEvent') or p.endswith('::StreamEvent')]
-    ctx.check(len(sev) == 1, 'd', 'stream_event_adt', 'StreamEvent', '', 'found', 'StreamEvent ADT not found')
-    if len(sev) == 1:
-        vidx = {v['name']: i for i, v in enumerate(sev[0]['variants'])}
-        disp = [br for br in branches(F, fa) if br.desc[0] == 'discr' and len(br.edges) >= 5 and 'Stream' in D.render(br.desc)]
-        ctx.check(bool(disp), 'd', 'stream_event_dispatch', fa, fa.where(), 'dispatch found', 'cannot locate the StreamEvent dispatch')
-        for name, wants in want.items():
-            got = set()
+    # StreamEvent / Event variant discriminants (from the proto facts; an unrelated type of the same name elsewhere is not an anchor)
+    sev = [a for p, a in F.adts.items() if a.get('crate') == 'quinn_proto' and p.endswith('::StreamEvent')]
+    eev = [a for p, a in F.adts.items() if a.get('crate') == 'quinn_proto' and p.endswith('connection::Event')]
+    ctx.check(len(sev) == 1 and len(eev) == 1, 'd', 'stream_event_adt', 'StreamEvent', '', 'found', 'quinn_proto StreamEvent / Event ADT not found')
+    if len(sev) != 1 or len(eev) != 1:
+        return
+    vidx = {v['name']: int(v.get('discr', i)) for i, v in enumerate(sev[0]['variants'])}
+    eidx = {v['name']: int(v.get('discr', i)) for i, v in enumerate(eev[0]['variants'])}
+    disp = [br for br in branches(F, fa) if br.desc[0] == 'discr' and _is_variant_field(br.desc[1], 'Stream', '0')]
+    ctx.check(bool(disp), 'd', 'stream_event_dispatch', fa, fa.where(), 'dispatch found', 'cannot locate the StreamEvent dispatch')
+    for name, wants in want.items():
+        got = set()
+        for br in disp:
+            if vidx[name] in [v for v, _ in br.edges]:
+                for c in _arm_calls(F, fa, br, vidx[name], stop + [x.bb for x in disp if x is not br]):
+                    for wn, fld in wants:
+                        if short(c.f).endswith(wn) and D.has_field(arg_desc(F, c, 1), fld):
+                            got.add((wn, fld))
+        missing = [w for w in wants if w not in got]
+        ctx.check(not missing, 'd', 'event_wakes_its_waiters_' + name, fa, fa.where(), '%s -> %s' % (name, wants),
+                  'StreamEvent::%s no longer wakes %s: tasks parked on that condition hang' % (name, missing))
+    # per-direction Notify arrays: on the arm of StreamEvent::<E> (and, when the arm tests `dir`, on the edge of each Dir value)
+    # the element of that direction is notified (constant index = that Dir, an index computed from the event's `dir`, or all elements)
+    for ev, fld in (('Opened', 'stream_incoming'), ('Available', 'stream_budget_available')):
+        n_arr = _array_len(shf.get(fld, '')) or 0
+        missing = []
+        for v in range(n_arr):
+            ok = False
             for br in disp:
-                if vidx[name] in [v for v, _ in br.edges]:
-                    for c in _arm_calls(F, fa, br, vidx[name], stop + [x.bb for x in disp if x is not br]):
-                        for wn, fld in wants:
-                            if short(c.f).endswith(wn) and D.has_field(arg_desc(F, c, 1), fld):
-                                got.add((wn, fld))
-            missing = [w for w in wants if w not in got]
-            ctx.check(not missing, 'd', 'event_wakes_its_waiters_' + name, fa, fa.where(), '%s -> %s' % (name, wants),
-                      'StreamEvent::%s no longer wakes %s: tasks parked on that condition hang' % (name, missing))
-    # Notify-based events
-    for fld in ('stream_incoming', 'stream_budget_available', 'datagram_received', 'datagrams_unblocked', 'connected', 'handshake_confirmed'):
-        ok = any(c.is_('Notify::notify_waiters') and D.has_field(arg_desc(F, c, 0), fld) for c in fa.calls())
-        ctx.check(ok, 'd', 'event_notifies_' + fld, fa, fa.where(), 'shared.%s.notify_waiters()' % fld, 'forward_app_events no longer notifies shared.%s' % fld)
-    ctx.check(bool(fa.calls_to('connection::State::terminate', 'State::terminate')), 'd', 'connection_lost_terminates', fa, fa.where(), 'ConnectionLost -> terminate', 'ConnectionLost no longer terminates the async state')
-    # terminate covers every Notify of Shared and every waker map of State
+                if vidx[ev] not in [x for x, _ in br.edges]:
+                    continue
+                reach = fa.reachable_from(br.target(vidx[ev]), avoid=[br.bb] + stop)
+                for b2 in branches(F, fa):
+                    if b2.bb in reach and b2.desc[0] == 'discr' and _is_variant_field(b2.desc[1], ev, 'dir'):
+                        reach = fa.reachable_from(b2.target(v), avoid=[b2.bb, br.bb] + stop)
+                        break
+                for c in fa.calls():
+                    if c.bb not in reach:
+                        continue
+                    cov = _notify_cover(F, c, fld)
+                    if cov == 'all' or (isinstance(cov, set) and v in cov) or \
+                            (isinstance(cov, tuple) and any(_is_variant_field(x, ev, 'dir') for i_ in cov[1] for x in walk(i_))):
+                        ok = True
+            if not ok:
+                missing.append(v)
+        ctx.check(n_arr > 0 and not missing, 'd', 'event_notifies_' + fld, fa, fa.where(), 'StreamEvent::%s{dir} -> shared.%s[dir].notify_waiters() for each of %d directions' % (ev, fld, n_arr),
+                  'forward_app_events no longer notifies shared.%s[%s] on StreamEvent::%s of that direction: tasks waiting for that direction hang' % (fld, missing, ev))
+    # Notify-based events: the notification is on the arm of its own event
+    outer = [br for br in branches(F, fa) if disp and br.desc == ('discr', disp[0].desc[1][1][1])]
+    ctx.check(len(outer) == 1, 'd', 'event_dispatch', fa, fa.where(), 'dispatch on the Event discriminant found', 'cannot locate the dispatch on quinn_proto::Event')
+    for ev, fld in (('DatagramReceived', 'datagram_received'), ('DatagramsUnblocked', 'datagrams_unblocked'), ('Connected', 'connected'), ('HandshakeConfirmed', 'handshake_confirmed')):
+        ok = False
+        for br in outer:
+            if eidx.get(ev) in [x for x, _ in br.edges]:
+                ok = any(_notify_cover(F, c, fld) == 'all' for c in _arm_calls(F, fa, br, eidx[ev], stop))
+        ctx.check(ok, 'd', 'event_notifies_' + fld, fa, fa.where(), 'Event::%s -> shared.%s.notify_waiters()' % (ev, fld), 'forward_app_events no longer notifies shared.%s on Event::%s' % (fld, ev))
+    ok = False
+    for br in outer:
+        if eidx.get('ConnectionLost') in [x for x, _ in br.edges]:
+            ok = any(c.is_('connection::State::terminate', 'State::terminate') for c in _arm_calls(F, fa, br, eidx['ConnectionLost'], stop))
+    ctx.check(ok, 'd', 'connection_lost_terminates', fa, fa.where(), 'ConnectionLost -> terminate', 'ConnectionLost no longer terminates the async state')
+    # terminate covers every Notify of Shared (every element of the per-direction arrays) and every waker map of State
     tm = ctx.qfn('connection::State::terminate')
-    sh = F.adt('connection::Shared')
+    nfields = 0
     for f in sh['variants'][0]['fields']:
         if 'Notify' in f[1]:
-            ok = any(c.is_('Notify::notify_waiters') and D.has_field(arg_desc(F, c, 0), f[0]) for c in tm.calls())
-            ctx.check(ok, 'd', 'terminate_notifies_' + f[0], tm, tm.where(), 'shared.%s notified' % f[0], 'terminate() does not notify shared.%s: waiters on it hang when the connection is lost' % f[0])
+            nfields += 1
+            n_arr = _array_len(f[1])
+            covs = [x for x in (_notify_cover(F, c, f[0]) for c in tm.calls() if c.bb in tm.live_blocks()) if x is not None]
+            # a computed index covers every element only inside a loop
+            loopy = any(isinstance(_notify_cover(F, c, f[0]), tuple) and c.bb in tm.reachable_strict(c.bb) for c in tm.calls())
+            if n_arr is None:
+                ok = bool(covs)
+                missing = []
+            else:
+                have = set()
+                for x in covs:
+                    if isinstance(x, set):
+                        have |= x
+                missing = [] if ('all' in covs or loopy) else [v for v in range(n_arr) if v not in have]
+                ok = bool(covs) and not missing
+            ctx.check(ok, 'd', 'terminate_notifies_' + f[0], tm, tm.where(), 'shared.%s notified%s' % (f[0], '' if n_arr is None else ' (all %d elements)' % n_arr),
+                      'terminate() does not notify shared.%s%s: waiters on it hang when the connection is lost' % (f[0], missing if missing else ''))
+    ctx.floor('d', 'shared_notify_fields', nfields, 7)
     for fld, fn in (('blocked_writers', 'wake_all'), ('blocked_readers', 'wake_all'), ('stopped', 'wake_all_notify')):
         ok = any(short(c.f).endswith(fn) and D.has_field(arg_desc(F, c, 0), fld) for c in tm.calls())
         ctx.check(ok, 'd', 'terminate_drains_' + fld, tm, tm.where(), '%s(&mut self.%s)' % (fn, fld), 'terminate() does not wake the tasks registered in %s' % fld)
-    er = [w for w in field_writes(F, 'connection::State', 'error', crate='quinn') if w.body.id == tm.id and w.kind == 'assign']
-    ctx.check(bool(er), 'd', 'terminate_records_error', tm, tm.where(), 'self.error = Some(reason)', 'terminate() no longer records the error woken tasks will observe')
+    # the error observed by the woken tasks: every store to self.error in terminate() stores Some(<the ConnectionError parameter>)
+    eparams = [i for i in range(1, tm.argc + 1) if 'ConnectionError' in tm.locals[i][0]]
+    d = describer(F, tm)
+
+    def _is_some_reason(x):
+        return x[0] == 'agg' and x[2].endswith('::Some') and len(x[3]) == 1 and x[3][0][0] == 'param' and x[3][0][1] in eparams
+
+    stores = []
+    for w in field_writes(F, 'connection::State', 'error', crate='quinn'):
+        if w.body.id != tm.id:
+            continue
+        if w.kind == 'assign' and w.rv and w.rv[0] != 'sd':
+            stores.append(all(_is_some_reason(x) for x in flat(d.rvalue(w.rv, w.bb, w.idx, 0))))
+        elif w.kind == 'mutborrow' and w.call is not None and w.call.is_('Option::replace', 'Option::insert', 'Option::get_or_insert'):
+            a1 = arg_desc(F, w.call, 1)
+            stores.append(a1[0] == 'param' and a1[1] in eparams)
+        elif w.kind == 'mutborrow' and w.call is not None and (is_noise(w.call) or w.call.is_('Option::is_some', 'Option::is_none', 'Option::as_ref')):
+            continue
+        else:
+            stores.append(False)
+    ctx.check(bool(stores) and all(stores), 'd', 'terminate_records_error', tm, tm.where(), 'self.error = Some(reason)', 'terminate() no longer records the error woken tasks will observe (self.error is not set to Some(reason))')
+
+
+def _edge_conds(br):
+    """canonical condition holding on each edge of a branch: [(target, cond)] with cond one of
+    ('some', X, bool) / ('err', X, bool)  Option::is_some|is_none / Result::is_err|is_ok of X,
+    ('rel', (op, a, b))                    comparison that holds on the edge,
+    ('bool', X, bool)                      any other bool,
+    ('discr', X, value|None)               enum discriminant (None = the otherwise edge)"""
+    out = []
+    inner, neg = peel_not(br.desc)
+    for v, t in br.edges:
+        if inner[0] == 'discr':
+            out.append((t, ('discr', inner[1], v)))
+            continue
+        raw = (v is None) or v != 0
+        truth = raw != neg
+        rel = relation_on(br.desc, raw)
+        if rel is not None:
+            out.append((t, ('rel', rel)))
+        elif inner[0] == 'call' and inner[1] in ('Option::is_some', 'Option::is_none') and inner[3]:
+            out.append((t, ('some', inner[3][0], truth == (inner[1] == 'Option::is_some'))))
+        elif inner[0] == 'call' and inner[1] in ('Result::is_err', 'Result::is_ok') and inner[3]:
+            out.append((t, ('err', inner[3][0], truth == (inner[1] == 'Result::is_err'))))
+        else:
+            out.append((t, ('bool', inner, truth)))
+    return out
+
+
+def _skipping(F, b, site_bb):
+    """(Branch, cond) for every edge of a branch dominating the site from which the site can no longer be reached"""
+    res = []
+    for br in branches(F, b):
+        if br.bb == site_bb or not b.dominates(br.bb, site_bb):
+            continue
+        for t, cond in _edge_conds(br):
+            if site_bb not in b.reachable_from(t, avoid=[br.bb]):
+                res.append((br, cond))
+    return res
+
+
+def _is_field_of_lock(x, name):
+    return x[0] == 'field' and x[2] == name
+
+
+def _last_handle_rel(rel):
+    """relation holding on the edge that SKIPS the close: more than one handle existed before the decrement:
+    fetch_sub(1) > 1, >= 2, != 1"""
+    op, a_, b_ = rel
+    fs = lambda x: x[0] == 'call' and x[1].endswith('::fetch_sub') and D.has_field(x, 'ref_count') and len(x[3]) > 1 and _const_int(x[3][1]) == 1
+    k = lambda x: _const_int(x) if x[0] == 'const' else None
+    return (op == 'Lt' and k(a_) == 1 and fs(b_)) or (op == 'Le' and k(a_) == 2 and fs(b_)) or (op == 'Ne' and ((k(a_) == 1 and fs(b_)) or (k(b_) == 1 and fs(a_))))
+
+
+def _path_assuming(F, b, site, assume, stopped, avoid):
+    """a path from the Result-returning call `site` to a return avoiding `avoid`, taking at every branch that tests the result of
+    that call only the edges consistent with `assume`: 'ok' = Ok(_), 'stopped' = Err(FinishError::Stopped(_)) (`stopped` is that
+    variant's discriminant); None if there is none"""
+    brs = {br.bb: br for br in branches(F, b)}
+    seen, prev = set(), {}
+    stack = [(s2, site.bb) for s2 in b.succ[site.bb]]
+    rets = set(b.return_blocks())
+    while stack:
+        bb, frm = stack.pop()
+        if bb in seen or bb in avoid or bb == site.bb:
+            continue
+        seen.add(bb)
+        prev[bb] = frm
+        if bb in rets:
+            path = [bb]
+            while path[-1] != site.bb:
+                path.append(prev[path[-1]])
+            return list(reversed(path))
+        succ = list(b.succ[bb])
+        br = brs.get(bb)
+        if br is not None:
+            keep = None
+            inner, neg = peel_not(br.desc)
+            if inner[0] == 'discr' and is_site(inner[1], site):
+                keep = {br.target(0 if assume == 'ok' else 1)}           # Result: Ok = 0, Err = 1
+            elif inner[0] == 'discr' and _is_variant_field(inner[1], 'Err', '0') and is_site(inner[1][1][1], site):
+                keep = set() if assume == 'ok' else {br.target(stopped)}
+            else:
+                for t, cond in _edge_conds(br):
+                    if cond[0] == 'err' and is_site(cond[1], site):
+                        keep = (keep or set()) | ({t} if cond[2] is (assume != 'ok') else set())
+            if keep is not None:
+                succ = [x for x in succ if x in keep]
+        for s2 in succ:
+            stack.append((s2, bb))
+    return None
 
 
 def rule_e(ctx):
     F = ctx.facts
+    conn_lost = lambda c: c[0] == 'some' and _is_field_of_lock(c[1], 'error') and c[2] is True or (c[0] == 'discr' and _is_field_of_lock(c[1], 'error') and c[2] == 1)
+    zero_rtt_rejected = lambda c: c[0] == 'err' and D.has_call(c[1], 'State::check_0rtt') and c[2] is True or (c[0] == 'discr' and c[1][0] == 'call' and c[1][1].endswith('State::check_0rtt') and c[2] == 1)
     table = [
-        ('<send_stream::SendStream as Drop>::drop', ['quinn_proto::SendStream::finish', 'SendStream::finish'], 'implicit finish'),
-        ('<recv_stream::RecvStream as Drop>::drop', ['quinn_proto::RecvStream::stop', 'RecvStream::stop'], 'implicit stop'),
-        ('<connection::ConnectionRef as Drop>::drop', ['State::implicit_close'], 'implicit close on last handle'),
-        ('<connection::State as Drop>::drop', ['EndpointEvent::drained'], 'endpoint notified'),
-        ('<incoming::Incoming as Drop>::drop', ['Endpoint::refuse', 'EndpointInner::refuse'], 'implicit refuse'),
+        ('<send_stream::SendStream as Drop>::drop', ['quinn_proto::SendStream::finish', 'SendStream::finish'], 'implicit finish',
+         [conn_lost, zero_rtt_rejected], 'the connection is lost / 0-RTT was rejected'),
+        ('<recv_stream::RecvStream as Drop>::drop', ['quinn_proto::RecvStream::stop', 'RecvStream::stop'], 'implicit stop',
+         [conn_lost, zero_rtt_rejected, lambda c: c[0] == 'bool' and c[1][0] == 'field' and c[1][2] == 'all_data_read' and c[1][1][0] == 'param' and c[2] is True], 'all data was read / the connection is lost / 0-RTT was rejected'),
+        ('<connection::ConnectionRef as Drop>::drop', ['State::implicit_close'], 'implicit close on last handle',
+         [lambda c: c[0] == 'rel' and any(x[0] == 'call' and x[1].endswith('::fetch_sub') for x in walk(c[1][1])) or c[0] == 'rel' and any(x[0] == 'call' and x[1].endswith('::fetch_sub') for x in walk(c[1][2])),
+          lambda c: c[0] == 'bool' and c[1][0] == 'call' and c[1][1].endswith('Connection::is_closed') and c[2] is True], 'other handles remain / the connection is already closed'),
+        ('<connection::State as Drop>::drop', ['EndpointEvent::drained'], 'endpoint notified', None, ''),
+        ('<incoming::Incoming as Drop>::drop', ['Endpoint::refuse', 'EndpointInner::refuse'], 'implicit refuse',
+         [lambda c: c[0] == 'discr' and c[1][0] == 'call' and c[1][1] == 'Option::take' and c[2] in (0, None),
+          lambda c: c[0] == 'some' and c[1][0] == 'call' and c[1][1] == 'Option::take' and c[2] is False], 'the Incoming was already consumed (state taken)'),
     ]
-    for fn, pats, what in table:
+    for fn, pats, what, allowed, allowed_txt in table:
         b = ctx.qfn(fn)
-        ctx.check(may_reach(F, b, pats, 2), 'e', 'drop_performs_' + what.replace(' ', '_'), b, b.where(), '%s reaches %s' % (fn, pats[0]), 'dropping no longer performs the %s' % what)
+        reaches = may_reach(F, b, pats, 2)
+        bad = []
+        if reaches and allowed is not None:
+            # the only conditions under which the drop may skip the action are the stated ones, each on its stated edge
+            sites = sorted(bb for bb in may_sites(F, b, pats, 2) if bb in b.live_blocks())
+            reaches = bool(sites)
+            for sb in sites:
+                for br, cond in _skipping(F, b, sb):
+                    if not any(al(cond) for al in allowed):
+                        bad.append('%s %s at %s' % (cond[0], D.render(cond[1] if cond[0] != 'rel' else ('bin',) + tuple(cond[1]))[:70] + ('=%s' % (cond[2],) if cond[0] != 'rel' else ''), br.where()))
+        ctx.check(reaches and not bad, 'e', 'drop_performs_' + what.replace(' ', '_'), b, b.where(), '%s reaches %s%s' % (fn, pats[0], (', skipped only when ' + allowed_txt) if allowed else ''),
+                  'dropping no longer performs the %s%s' % (what, (' whenever it should: it is skipped under %s (allowed: %s)' % (bad, allowed_txt)) if bad else ''))
     # State::drop tells the endpoint `Drained` unless the protocol state machine itself already reported it:
     # the only condition that may skip the notification is inner.is_drained()
     sdp = ctx.qfn('<connection::State as Drop>::drop')
@@ -303,11 +702,59 @@ def rule_e(ctx):
         b = ctx.qfn(fn)
         ok = any(c.is_('HashMap::remove') and D.has_field(arg_desc(F, c, 0), fld) for c in b.calls())
         ctx.check(ok, 'e', 'stale_registration_removed_' + fn.split('::')[-2].strip('<> ') + '_' + fld, b, b.where(), '%s.remove(&id)' % fld, '%s leaves a stale waker registration in %s' % (fn, fld))
+    # the implicit finish (and the reset that replaces it on a stopped stream) queue frames: on the success edge of each, every
+    # path to the return wakes the driver
     sd = ctx.qfn('<send_stream::SendStream as Drop>::drop')
-    ctx.check(bool(sd.calls_to('State::wake')), 'e', 'implicit_finish_wakes_driver', sd, sd.where(), 'wake()', 'implicit finish is not transmitted (driver not woken)')
+    wakes = {c.bb for c in sd.calls_to('connection::State::wake', 'State::wake')}
+    fin = sd.calls_to('quinn_proto::SendStream::finish')
+    rst = sd.calls_to('quinn_proto::SendStream::reset')
+    okw = bool(wakes) and bool(fin)
+    why = []
+    for s_, is_finish in [(x, True) for x in fin] + [(x, False) for x in rst]:
+        examined = any((br.desc[0] == 'discr' and is_site(br.desc[1], s_)) or any(c_[0] == 'err' and is_site(c_[1], s_) for _, c_ in _edge_conds(br)) for br in branches(F, sd))
+        if not examined:
+            if is_finish:
+                okw = False
+                why.append('result of finish() is not examined')
+            continue   # a reset whose result is ignored: covered by the finish check only when a wake follows unconditionally
+        # paths consistent with the call having returned Ok (a later test of the same result cannot take its Ok edge after an
+        # earlier one took the Err edge)
+        p = _path_assuming(F, sd, s_, 'ok', None, wakes)
+        if p is not None:
+            okw = False
+            why.append('after a successful %s: %s' % ('finish()' if is_finish else 'reset()', fmt_path(sd, p)))
+    for s_ in rst:
+        # a reset with an unexamined result must be followed by a wake on every path
+        if not any((br.desc[0] == 'discr' and is_site(br.desc[1], s_)) or any(c_[0] == 'err' and is_site(c_[1], s_) for _, c_ in _edge_conds(br)) for br in branches(F, sd)):
+            if path_avoiding(sd, sd.succ[s_.bb], sd.return_blocks(), wakes) is not None:
+                okw = False
+                why.append('reset() not followed by wake()')
+    ctx.check(okw, 'e', 'implicit_finish_wakes_driver', sd, sd.where(), 'Ok edge of finish() / reset() -> wake() on every path', 'implicit finish is not transmitted (driver not woken): %s' % '; '.join(why))
+    # a stream the peer stopped is reset when its handle is dropped (proto does not reset on STOP_SENDING by itself; without the
+    # reset the stream is never retired and its stream-count credit is never returned): on every path from the implicit finish()
+    # to the return that is consistent with finish() == Err(FinishError::Stopped(_)), the stream is reset
+    fe = [a for p_, a in F.adts.items() if a.get('crate') == 'quinn_proto' and p_.endswith('::FinishError')]
+    stopped_v = [int(v.get('discr', i)) for a in fe for i, v in enumerate(a['variants']) if v['name'] == 'Stopped']
+    rst_blocks = {bb for bb in may_sites(F, sd, ['quinn_proto::SendStream::reset'], 2) if bb in sd.live_blocks()}
+    okr = len(stopped_v) == 1 and bool(fin)
+    whyr = [] if okr else ['finish() / FinishError::Stopped not found']
+    for s_ in fin if okr else []:
+        p_ = _path_assuming(F, sd, s_, 'stopped', stopped_v[0], rst_blocks)
+        if p_ is not None:
+            okr = False
+            whyr.append(fmt_path(sd, p_))
+    ctx.check(okr, 'e', 'drop_resets_stopped_stream', sd, sd.where(), 'finish() == Err(Stopped) -> reset() on every path',
+              'dropping a SendStream the peer stopped neither finishes nor resets it (the stream is never retired, no MAX_STREAMS credit returns): a path from finish() = Err(Stopped) to the return avoids reset(): %s' % '; '.join(whyr))
+    # last handle: the close is skipped exactly when the decrement saw more than one handle
     cr = ctx.qfn('<connection::ConnectionRef as Drop>::drop')
-    fs = [c for c in cr.calls() if short(c.f).endswith('::fetch_sub')]
-    ctx.check(bool(fs), 'e', 'last_handle_detection', cr, cr.where(), 'ref_count.fetch_sub', 'ConnectionRef::drop no longer counts handles')
+    fs = [c for c in cr.calls() if short(c.f).endswith('::fetch_sub') and D.has_field(arg_desc(F, c, 0), 'ref_count')]
+    ics = sorted(bb for bb in may_sites(F, cr, ['State::implicit_close'], 2) if bb in cr.live_blocks())
+    okl = bool(fs) and bool(ics)
+    for sb in ics:
+        rels = [cond[1] for br, cond in _skipping(F, cr, sb) if cond[0] == 'rel' and any(contains_site(x, c) for c in fs for x in (cond[1][1], cond[1][2]))]
+        if not rels or not all(_last_handle_rel(r) for r in rels):
+            okl = False
+    ctx.check(okl, 'e', 'last_handle_detection', cr, cr.where(), 'close skipped iff ref_count.fetch_sub(1) > 1', 'ConnectionRef::drop no longer detects the last handle (the close must be skipped exactly when fetch_sub(1) returned more than 1)')
     # a connection inserted into an already-closed endpoint is told to close
     ins = ctx.qfn('ConnectionSet::insert')
     brs = [br for br in branches(F, ins) if br.desc[0] == 'discr' and D.has_field(br.desc, 'close')]
@@ -347,10 +794,43 @@ def rule_f(ctx):
     pend = [c for c in constructions(F, 'Poll', 'Pending', crate='quinn') if c.body.id == pr.id]
     ins = [c for c in pr.calls() if c.is_('HashMap::insert') and D.has_field(arg_desc(F, c, 0), 'blocked_readers')]
     ok = len(pend) == 1 and bool(ins) and all(any(pr.dominates(i.bb, p.bb) for i in ins) for p in pend)
-    # the Pending exit is on the `read == None` arm: dominated by a branch on the discriminant of the Option payload of Failed
+    # the Pending exit is on the `read == None` arm: dominated by a test of the Option payload of ReadStatus::Failed, and reachable
+    # only over its None edge (bytes already consumed from the stream are returned, not dropped)
+    for p in pend:
+        separated = False
+        for br in branches(F, pr):
+            if not pr.dominates(br.bb, p.bb):
+                continue
+            conds = [(t, c) for t, c in _edge_conds(br) if c[0] in ('discr', 'some') and _is_variant_field(c[1], 'Failed', '0')]
+            if not conds:
+                continue
+            explicit = [c[2] for t, c in conds if c[0] == 'discr']
+            nodata = lambda c: (c[0] == 'discr' and (c[2] == 0 or (c[2] is None and 0 not in explicit and 1 in explicit))) or (c[0] == 'some' and c[2] is False)
+            reach = lambda t: t in pr.live_blocks() and p.bb in pr.reachable_from(t, avoid=[br.bb])
+            # (match lowering may test the payload more than once with shared fall-through blocks: one separating test suffices)
+            if any(nodata(c) and reach(t) for t, c in conds) and not any(reach(t) for t, c in conds if not nodata(c)):
+                separated = True
+        if not separated:
+            ok = False
     ctx.check(ok, 'f', 'read_pending_only_without_data', pr, pr.where(), 'single Pending exit after registering in blocked_readers', 'poll_read_generic has a Pending exit that does not register / is not the no-data arm')
     st = [w for w in field_writes(F, 'recv_stream::RecvStream', 'reset', crate='quinn') if w.body.id == pr.id and w.kind == 'assign']
     ctx.check(len(st) >= 2, 'f', 'reset_seen_with_data_is_parked', pr, pr.where(), 'self.reset = Some(code) on both Failed(.., Reset) arms', 'a reset observed together with data is no longer parked for the next call')
+
+
+def _busy_edge_wakes(F, b, producers, pend_blocks, wakes):
+    """the branch on the accumulated `work remains` flag (a bool computed from the results of all `producers`): on its TRUE edge
+    every path to a Pending construction passes a self-wake"""
+    found = False
+    for br in branches(F, b):
+        inner, neg = peel_not(br.desc)
+        if inner[0] == 'discr' or not all(D.has_call(inner, p_) for p_ in producers):
+            continue
+        for t, cond in _edge_conds(br):
+            if cond[0] == 'bool' and cond[2] is True:
+                found = True
+                if path_avoiding(b, [t], pend_blocks, wakes) is not None:
+                    return False
+    return found
 
 
 def rule_g(ctx):
@@ -360,18 +840,38 @@ def rule_g(ctx):
     wk = {c.bb for c in dp.calls_to('Waker::wake_by_ref')} | {w.bb for w in field_writes(F, 'connection::State', 'driver', crate='quinn') if w.body.id == dp.id and w.kind == 'assign'}
     ok = bool(pend) and len(wk) >= 2 and all(path_avoiding(dp, [0], [p.bb], wk) is None for p in pend)
     ctx.check(ok, 'g', 'driver_pending_always_rescheduled', dp, dp.where(), 'wake_by_ref() or driver = Some(waker) before every Pending', 'the connection driver can return Pending without storing its waker or self-waking')
-    ctx.check(bool(dp.calls_to('State::process_conn_events')) and bool(dp.calls_to('State::drive_transmit')) and bool(dp.calls_to('State::drive_timer')) and bool(dp.calls_to('State::forward_endpoint_events')) and bool(dp.calls_to('State::forward_app_events')),
-              'g', 'driver_stages', dp, dp.where(), 'events -> transmit -> timer -> forward', 'a stage of the connection driver loop is gone')
+    # order: what processing / transmitting / timers produce is forwarded in the same poll: from each producing stage every path to a
+    # return (other than the error exits: `?`, terminate) passes the later stages
+    errs = {c.bb for c in dp.calls() if c.is_('FromResidual::from_residual', 'connection::State::terminate', 'State::terminate')}
+    st = {n_: {c.bb for c in dp.calls_to('State::' + n_)} for n_ in ('process_conn_events', 'drive_transmit', 'drive_timer', 'forward_endpoint_events', 'forward_app_events')}
+    order_bad = []
+    for first, then in (('process_conn_events', 'drive_transmit'), ('process_conn_events', 'forward_endpoint_events'), ('process_conn_events', 'forward_app_events'),
+                        ('drive_transmit', 'forward_endpoint_events'), ('drive_transmit', 'forward_app_events'), ('drive_timer', 'forward_endpoint_events'), ('drive_timer', 'forward_app_events')):
+        for sb in st[first]:
+            p_ = path_avoiding(dp, dp.succ[sb], dp.return_blocks(), st[then] | errs)
+            if p_ is not None:
+                order_bad.append('%s is not followed by %s: %s' % (first, then, fmt_path(dp, p_)))
+    ctx.check(all(st.values()) and not order_bad, 'g', 'driver_stages', dp, dp.where(), 'events -> transmit -> timer -> forward, each later stage on every non-error path after the earlier one',
+              'the connection driver loop no longer runs its stages in order (events produced by a stage are not forwarded in the same poll): %s' % '; '.join(order_bad[:3]))
+    # polarity of the reschedule decision: when a stage reported remaining work (keep_going) the driver wakes itself
+    pend_b = [p.bb for p in pend]
+    wk_self = {c.bb for c in dp.calls_to('Waker::wake_by_ref')}
+    ctx.check(_busy_edge_wakes(F, dp, ('State::drive_transmit', 'State::drive_timer'), pend_b, wk_self), 'g', 'driver_busy_self_wakes', dp, dp.where(), 'keep_going == true edge -> wake_by_ref() before Pending',
+              'the connection driver does not wake itself on the edge where drive_transmit / drive_timer reported remaining work')
     dt = ctx.qfn('State::drive_timer')
     ht = dt.calls_to('quinn_proto::Connection::handle_timeout')
     ctx.check(len(ht) >= 2 and bool(dt.calls_to('quinn_proto::Connection::poll_timeout')), 'g', 'timer_serviced', dt, dt.where(), 'poll_timeout + handle_timeout (clock check and post-poll)', 'drive_timer no longer services expired deadlines')
     edp = ctx.qfn('<EndpointDriver as Future>::poll')
-    ctx.check(bool(edp.calls_to('Waker::wake_by_ref')), 'g', 'endpoint_driver_self_wakes', edp, edp.where(), 'wake_by_ref when keep_going', 'the endpoint driver no longer reschedules itself when work remains')
+    epend = [c.bb for c in constructions(F, 'Poll', 'Pending', crate='quinn') if c.body.id == edp.id]
+    ewk = {c.bb for c in edp.calls_to('Waker::wake_by_ref')}
+    ctx.check(bool(ewk) and bool(epend) and _busy_edge_wakes(F, edp, ('State::drive_recv', 'State::handle_events'), epend, ewk), 'g', 'endpoint_driver_self_wakes', edp, edp.where(), 'keep_going == true edge -> wake_by_ref() before Pending',
+              'the endpoint driver no longer reschedules itself when work remains (no wake_by_ref on the edge where drive_recv / handle_events reported remaining work)')
 
 
 def run(ctx):
     rule_a(ctx)
     rule_b(ctx)
+    rule_b_waiter_notify(ctx)
     rule_c(ctx)
     rule_d(ctx)
     rule_e(ctx)
